@@ -213,6 +213,13 @@ func runC07(e *Env) {
 			break
 		}
 		rest := evs[before:]
+		if e.firedFaults > 1 && len(e.Unhandled) > 0 && (len(rest) == 0 || rest[0].K != 'E' || !matches(rest[0].Err)) {
+			// pair of faults: the Error raised for the first failure was handed to a callback on the
+			// terminal path that failed as well; the library sends that to the unhandled-error hook and
+			// the subscriber is never told (same root cause as the single-fault clause of that name)
+			e.Violate("C07", "failure-swallowed-to-unhandled-hook", fmt.Sprintf("faults %v: the first failure (%s at %s#%d) never reached the subscriber as an Error: its error path failed too and went to the unhandled-error hook %v (trace %s)", sc.Faults, f.Kind, f.Site, f.Inv, e.Unhandled, rec.Trace()))
+			break
+		}
 		if len(rest) == 0 {
 			clause := "failure-swallowed"
 			if len(e.Unhandled) > 0 {
